@@ -263,15 +263,19 @@ class Witness(threading.Thread):
         self.calls = 0
         self.problems = []
         self.idle_timeouts = 0
+        self.slow_calls = 0
         self.connected = threading.Event()
 
     def run(self):
         P = self.fx.P
         try:
-            p = self.fx.proxy("svc", serializer=self.sername, timeout=20.0)
+            # (the client-side timeout is a watchdog, generous on purpose: the statement puts no bound on latency, and on a loaded machine
+            # a correct reply can take many seconds; a reply that takes longer than 20 s is counted, one that never comes is the verdict)
+            p = self.fx.proxy("svc", serializer=self.sername, timeout=90.0)
             p._pyroBind()
             self.connected.set()
             conn = p._pyroConnection
+            my_addr = conn.sock.getsockname()
             n = 0
             last_reply = time.monotonic()
             while not self.stop.is_set():
@@ -296,7 +300,8 @@ class Witness(threading.Thread):
                         got = p.echo(tok)
                 except P.errors.CommunicationError as x:
                     ct = P.config.COMMTIMEOUT
-                    if ct and ((t_send - last_reply) > 0.25 * ct or (time.monotonic() - t_send) > 0.5 * ct):
+                    timed_out_by_server = my_addr in getattr(self.fx, "server_timeouts", ())
+                    if ct and (timed_out_by_server or (t_send - last_reply) > 0.25 * ct or (time.monotonic() - t_send) > 0.5 * ct):
                         # (... or the failing call itself took a good part of COMMTIMEOUT: client and daemon share this process, and on a loaded
                         # machine the sending thread can be starved in the middle of a large request while the server's receive timeout runs)
                         # this witness itself was idle for a good part of the server's COMMTIMEOUT (descheduled on a loaded machine; the server's
@@ -315,10 +320,13 @@ class Witness(threading.Thread):
                                     raise
                                 time.sleep(0.05)
                         conn = p._pyroConnection
+                        my_addr = conn.sock.getsockname()
                         last_reply = time.monotonic()
                         continue
                     raise
                 last_reply = time.monotonic()
+                if last_reply - t_send > 20.0:
+                    self.slow_calls += 1
                 if got != tok:
                     self.problems.append("witness %d %s %s, got %s" % (self.wid, "expected its call to raise KeyError" if want_exc else "sent", core.short(tok, 60), core.short(got, 200)))
                     break
@@ -640,6 +648,22 @@ def run_config(P, cfg, rec, r, n_items):
     cfgkey = "%s/%s/%s%s%s" % (cfg["servertype"], cfg["commtimeout"], cfg["pool"], "/unix" if cfg.get("unix") else "", "/bc" if cfg.get("bc") else "")
     pay = {"cfg": cfg}
     bc = None
+    # observation only: which connections the daemon itself ended with a (server-side) receive timeout, by peer address. A well-behaved client
+    # whose connection was timed out by the server (it was descheduled for longer than COMMTIMEOUT on a loaded machine) is told so by this
+    # record, not by guessing from its own clock
+    fx.server_timeouts = set()
+    inner_handle = fx.daemon.handleRequest
+
+    def observed_handle_request(conn):
+        try:
+            return inner_handle(conn)
+        except P.errors.TimeoutError:
+            try:
+                fx.server_timeouts.add(conn.sock.getpeername())
+            except Exception:
+                pass
+            raise
+    fx.daemon.handleRequest = observed_handle_request
     try:
         fx.register(make_service(P), "svc")
         if cfg.get("bc"):
@@ -730,7 +754,7 @@ def run_config(P, cfg, rec, r, n_items):
         for w in witnesses:
             w.stop.set()
         for w in witnesses:
-            w.join(30)
+            w.join(100)
         for w in witnesses:
             if w.problems:
                 rec.violation("witness-disturbed", "%s (cfg %s); last hostile items %r" % (w.problems[0], cfgkey, last), dict(pay, last=last))
@@ -740,6 +764,7 @@ def run_config(P, cfg, rec, r, n_items):
                 return
             rec.count("witness_calls_ok", w.calls)
             rec.count("witness_idle_timeouts_tolerated", w.idle_timeouts)
+            rec.count("witness_calls_slower_than_20s", w.slow_calls)
         # fresh handshake after the attack
         ok = False
         err = None
